@@ -42,9 +42,9 @@ DEVS = {"imm_noref": "CleanupOnceAfterAll", "zero_noerr": "ClosedEcanceled"}
 INV = ("TypeOK ReadConservation HighWater WriteConservation DoneOnceLast CompletionOrder "
        "BarrierBetween ClosedEcanceled CleanupOnceAfterAll StopFlagsFinal")
 
-MODELS_Q = ["Io_r_q", "Io_w_q", "Io_cs_q", "Io_b_q", "Io_conv_q"]          # spec/cfg/<name>.cfg
+MODELS_Q = ["Io_r_q", "Io_w_q", "Io_cs_q", "Io_b_q", "Io_conv_q", "Io_iv_q"]          # spec/cfg/<name>.cfg
 MODELS_T = ["Io_r_t", "Io_rinf_t", "Io_w_t", "Io_w3_t", "Io_cs_t", "Io_cs3_t", "Io_csw_t", "Io_b_t", "Io_bs_t", "Io_rw_t",
-            "Io_f_t", "Io_conv_t"]
+            "Io_f_t", "Io_conv_t", "Io_iv_t", "Io_ivw_t"]
 # (mutant, config it must be refuted in)
 MUTANTS = [("dup_deliver", "Io_r_q"), ("early_done", "Io_r_q"), ("pick_skip", "Io_r_q"),
            ("high_plus_one", "Io_r_q"), ("close_nocancel", "Io_cs_q")]
@@ -135,6 +135,10 @@ def sched_from_tlc(j, rng, unit):
         kind = rng.choice([K_PIPE_IN, K_SOCK, K_FILE_IN, K_PIPE_IN])
     insize = sum(x["v"] for x in st if x["a"] == "pw") * unit
     hq = 1 if rng.random() < 0.2 else 0
+    if kind in (K_FILE_IN, K_FILE_OUT) and rng.random() < 0.3:
+        hq |= 4
+    elif kind < K_CONV_IN and rng.random() < 0.1:
+        hq |= 2
     lines = ["exec %d %%d %d %d" % (kind, hq, insize if kind == K_FILE_IN else 0)]
     nh = 0
     for x in st:
@@ -163,10 +167,12 @@ def pipe_hup_guard(kind, lines):
     completes when the reader goes away (EPOLLERR is ignored by the epoll backend).  The general
     schedules keep away from it (hangup on a pipe only if all writes fit its buffer); one directed
     execution demonstrates it."""
-    if kind in (K_PIPE_OUT, K_CONV_OUT):
-        total = sum(int(x.split()[1]) for x in lines if x.startswith("write ") or x.startswith("cwrite "))
-        if total > 60000:
-            lines = [x for x in lines if x != "ph"]
+    total = sum(int(x.split()[1]) for x in lines if x.startswith("write ") or x.startswith("cwrite "))
+    if kind in (K_PIPE_OUT, K_CONV_OUT) and total > 60000:
+        lines = [x for x in lines if x != "ph"]
+    # the same on a socketpair (write-parked-socket-peer-close-never-completes, race dependent)
+    if kind in (K_SOCK, K_CONV_SOCK) and total > 100000:
+        lines = [x for x in lines if x != "ph"]
     return "\n".join(lines)
 
 
@@ -192,6 +198,9 @@ def sched_random(rng):
         sets = [("high %d" % hi), ("low %d" % lo)]
         rng.shuffle(sets)
         client += sets[:rng.randint(1, 2)]
+    if kind not in (K_FILE_IN, K_FILE_OUT) and rng.random() < 0.15:
+        # interval timers (the disk engine defers STRICT deliveries of an active operation: not modelled)
+        client.append("interval %d %d" % (rng.choice([200000, 1000000, 3000000]), rng.choice([0, 1, 1])))
     nops = rng.randint(1, 6)
     rtotal = 0
     # bound the number of handler invocations of one operation (len / high water)
@@ -256,6 +265,11 @@ def sched_random(rng):
                 peer.insert(rng.randint(0, len(peer)), "pr %d" % rand_len(rng))
         if rng.random() < 0.25:
             peer.insert(rng.randint(0, len(peer)), "ph")
+    # channel made with dispatch_io_create_with_io (bit 1) / dispatch_io_create_with_path (bit 2)
+    if kind in (K_FILE_IN, K_FILE_OUT):
+        hq |= 4 if rng.random() < 0.4 else 0
+    if not (hq & 4) and rng.random() < 0.15:
+        hq |= 2
     # random merge, each list keeps its order
     out = ["exec %d %%d %d %d" % (kind, hq, insize)]
     i = j = 0
@@ -328,6 +342,9 @@ DIRECTED = [
     "exec 1 %d 0 0\nhqblock\nwrite 4 1 0 0\npr -1\nsleep 20000\nstop\nwaitcleanup 100000\nhqunblock\nend",
     # a write parked on a full pipe, then the reader goes away: must complete (with an error)
     "exec 1 %d 0 0\nwrite 150000 1 0 0\nwaith 1 50000\nsleep 5000\nph\nstalled 1 4000000\nend",
+    # the same on a socketpair whose peer closes with unread data (race dependent: two attempts)
+    "exec 2 %d 0 0\nhigh 2062\nread 66000\nwrite 400000 1 0 0\npw 33000\nsleep 3000\nph\nstalled 2 3000000\nend",
+    "exec 2 %d 0 0\nhigh 2062\nread 66000\nwrite 400000 1 0 0\npw 33000\nsleep 1000\nph\nstalled 2 3000000\nend",
 ]
 
 
@@ -494,6 +511,13 @@ def run_batch(v, drv, name, sched_text, seed, lock, kf_listed):
     if os.path.exists(tr):
         os.unlink(tr)
     rc, out, err = sh([drv, tr, str(seed), sp, d], timeout=900)
+    if rc != 0:      # files of create_with_path executions that did not reach their end
+        for fn in os.listdir(d):
+            if fn.startswith("io_") and fn.endswith(".dat"):
+                try:
+                    os.unlink(os.path.join(d, fn))
+                except OSError:
+                    pass
     nexec = sched_text.count("exec ")
     if rc in (2, 70, 71):
         what = {2: "API oracle failed", 70: "crash inside libdispatch", 71: "hang: an operation or the cleanup handler never completed"}[rc]
